@@ -700,6 +700,65 @@ func customSpec(shares []tls.CurveID, groups []tls.CurveID, versMin uint16) func
 	}
 }
 
+var groupName = map[tls.CurveID]string{tls.X25519: "x25519", tls.CurveP256: "p256", tls.CurveP384: "p384", tls.CurveP521: "p521",
+	tls.X25519MLKEM768: "mlkem", tls.X25519Kyber768Draft00: "kyber"}
+
+func keyShareOrderClasses(rng func(int) int, nrandom int) []class {
+	X, P2, P3, P5, M, K := tls.X25519, tls.CurveP256, tls.CurveP384, tls.CurveP521, tls.X25519MLKEM768, tls.X25519Kyber768Draft00
+	mk := func(shares []tls.CurveID) class {
+		var n []string
+		for _, g := range shares {
+			n = append(n, groupName[g])
+		}
+		// supported_groups: the hybrid groups that have a share, then the classical groups
+		var gs []tls.CurveID
+		for _, g := range shares {
+			if g == M || g == K {
+				gs = append(gs, g)
+			}
+		}
+		gs = append(gs, X, P2, P3, P5)
+		return class{name: "custom-ks-" + strings.Join(n, "-"), kind: "custom-ks", id: tls.HelloCustom, mk: customSpec(append([]tls.CurveID(nil), shares...), gs, 0)}
+	}
+	lists := [][]tls.CurveID{
+		{X, M}, {M, X}, {X, K}, {P2, M}, {M, P2}, {X, P2, M}, {P2, X, M}, {X, M, P2}, {M, P2, X}, {P3, K, X}, {X, P2, P3, P5}, {P5, X},
+	}
+	seen := map[string]bool{}
+	var out []class
+	add := func(l []tls.CurveID) {
+		c := mk(l)
+		if !seen[c.name] {
+			seen[c.name] = true
+			out = append(out, c)
+		}
+	}
+	for _, l := range lists {
+		add(l)
+	}
+	classical := []tls.CurveID{X, P2, P3, P5}
+	for k := 0; k < nrandom; k++ {
+		// a random non-empty set of classical groups, at most one hybrid group, in a random order
+		var l []tls.CurveID
+		for _, g := range classical {
+			if rng(2) == 0 {
+				l = append(l, g)
+			}
+		}
+		if rng(3) != 0 {
+			l = append(l, []tls.CurveID{M, K}[rng(2)])
+		}
+		if len(l) == 0 {
+			l = []tls.CurveID{X}
+		}
+		for i := len(l) - 1; i > 0; i-- {
+			j := rng(i + 1)
+			l[i], l[j] = l[j], l[i]
+		}
+		add(l)
+	}
+	return out
+}
+
 func fingerprinted(p *hs.PKI, cl class) (class, bool) {
 	uc := tls.UClient(nil, p.ClientConfig(), cl.id)
 	if cl.mk != nil {
@@ -755,6 +814,10 @@ func run(c *vh.Ctx) {
 		class{name: "custom-five-shares", kind: "custom", id: tls.HelloCustom, mk: customSpec([]tls.CurveID{tls.CurveP256, tls.X25519MLKEM768, tls.X25519, tls.CurveP384, tls.CurveP521}, all, 0)},
 		class{name: "custom-mlkem-only", kind: "custom", id: tls.HelloCustom, mk: customSpec([]tls.CurveID{tls.X25519MLKEM768}, all, 0)},
 		class{name: "custom-p384-only-groups", kind: "custom", id: tls.HelloCustom, mk: customSpec([]tls.CurveID{tls.CurveP384}, []tls.CurveID{tls.CurveP384, tls.CurveP521}, 0)})
+	// key_share lists over order and multiplicity: classical before / after the hybrid share, several classical shares
+	// around it, either hybrid group; fixed lists plus permutations drawn from the run seed. Every share selection of
+	// these classes runs in every tier (first-share / second-share are mandatory rows).
+	classes = append(classes, keyShareOrderClasses(c.Rng.Intn, map[bool]int{true: 4, false: 24}[quick])...)
 	// supported_versions in every kind of order, TLSVersMin/TLSVersMax unset and set
 	nsv := 12
 	if quick {
